@@ -55,7 +55,7 @@ ELEMENTWISE = [{'op': 'map', 'f': 'inc'}, {'op': 'map', 'f': 'dbl'}, {'op': 'fil
 STRUCTURAL = [{'op': 'aggregateByKey'}, {'op': 'foldByKey'}, {'op': 'countByKey'}, {'op': 'cogroup_self'}, {'op': 'coalesce', 'n': 2}, {'op': 'coalesce', 'n': 1}, {'op': 'repartition', 'n': 3}, {'op': 'sortBy'}, {'op': 'distinct'},
               {'op': 'reduceByKey'}, {'op': 'groupByKey'}, {'op': 'zipWithIndex'}, {'op': 'glom'}, {'op': 'union_self'},
               {'op': 'sampleByKey', 'seed': 5}]
-ACTIONS = ['collect', 'collect', 'count', 'collectInner', 'collectInner', 'unpersist', 'reduce', 'reduceMax', 'fold', 'foldMax', 'take3', 'first', 'reduce', 'aggregate', 'takeSample', 'collect']
+ACTIONS = ['collect', 'collect', 'count', 'collectInner', 'collectInner', 'unpersist', 'reduce', 'reduceMax', 'fold', 'foldMax', 'take3', 'first', 'reduce', 'aggregate', 'takeSample', 'collect', 'foreach', 'foreachPartition']
 
 BACKENDS = ['thread', 'thread+datapickle', 'mp+cloudpickle+datapickle', 'mp+cloudpickle', 'mp+dill', 'ppe+cloudpickle', 'ppe+dill', 'reversed', 'shuffled']
 
@@ -141,6 +141,15 @@ def act(r, a, table, handles=()):
         return r.aggregate(0, lambda acc, x: acc + 1, table['add'])
     if a == 'takeSample':
         return r.takeSample(False, 2, seed=11)
+    if a == 'foreach':
+        # side-effect actions return None whatever the function returns - here something that cannot be sent back from a worker
+        return r.foreach(lambda x: (i for i in ()))
+    if a == 'foreachPartition':
+        def g(it):
+            for _ in it:
+                pass
+            yield 0
+        return r.foreachPartition(g)
     raise KeyError(a)
 
 
